@@ -9,6 +9,7 @@ mod m_diff;
 mod m_lin;
 mod m_obs;
 mod m_own;
+mod m_race;
 mod m_obs_async;
 mod m_ovec;
 
@@ -24,6 +25,7 @@ fn main() {
         "chain" => m_chain::run_line,
         "lin" => m_lin::run_line,
         "own" => m_own::run_line,
+        "race" => m_race::run_line,
         #[cfg(eyeball_verif)]
         "conc" => m_conc::run_line,
         "obs" => {
